@@ -603,9 +603,57 @@ def part_d(report, tier):
             report.violation({"part": "derived-classes", "format": "json", "kind": "roundtrip", "who": "init=False field"},
                              "JSON record with a derived field (init=False): load(save(%r)) -> %r" % (rec, out),
                              {"engine": "seqmc", "part": "derived-classes", "format": "json", "values": [name]})
+    # record classes of other legitimate shapes: fields with defaults (an empty / zero value must not turn into the
+    # default), __slots__ dataclasses (no instance __dict__), a cached_property next to the fields (instance __dict__
+    # holds more than the fields once it has been used)
+    import functools
+    for fmt in ("json", "csv", "tsv"):
+        base = getattr(wf, BASES[fmt])
+        shapes = []
+        shapes.append(("fields with defaults", dataclasses.make_dataclass(
+            "Dflt", [("f0", int), ("f1", str, dataclasses.field(default="pcs")), ("f2", float, dataclasses.field(default=1.5)),
+                     ("f3", int, dataclasses.field(default=7))], bases=(base,)), None))
+        shapes.append(("slots=True", dataclasses.make_dataclass(
+            "Slot", [("f0", int), ("f1", str), ("f2", float), ("f3", int)], bases=(base,), slots=True), None))
+        shapes.append(("cached_property used before save", dataclasses.make_dataclass(
+            "Cp", [("f0", int), ("f1", str), ("f2", float), ("f3", int)], bases=(base,),
+            namespace={"both": functools.cached_property(lambda self: frozenset((self.f0, self.f3)))}), "both"))
+        for what, cls, touch in shapes:
+            if touch:
+                getattr(cls, touch).__set_name__(cls, touch)
+            for combo in itertools.product([0, -3], ["", "pcs", " a,b\t"], [0.0, 1.5, -2.25], [0, 7]):
+                n += 1
+                rec = cls(*combo)
+                if touch:
+                    getattr(rec, touch)
+                out = observe(lambda: cls.load(rec.save().rstrip("\r\n")))
+                if out[0] != "ok" or not same(out[1], rec):
+                    bad += 1
+                    report.violation({"part": "derived-classes", "format": fmt, "kind": "roundtrip", "who": what},
+                                     "%s record class (%s): load(save(%r)) -> %r" % (fmt, what, rec, out),
+                                     {"engine": "seqmc", "part": "derived-classes", "format": fmt, "shape": what,
+                                      "values": list(map(repr, combo))})
+    # very long str fields (still one line): the length is just another point of "all str fields"
+    for fmt in ("json", "csv", "tsv"):
+        cls = make_cls(fmt, ["int", "str"], name="Long")
+        for ln in (65536, 131072, 131073, 400000):
+            for ch in ("x", ","):
+                n += 1
+                rec = cls(ln, ch * ln)
+                out = observe(lambda: cls.load(rec.save().rstrip("\r\n")))
+                if out[0] != "ok" or not same(out[1], rec):
+                    bad += 1
+                    shown = out if out[0] != "ok" else ("ok", "<a different record>")
+                    report.violation({"part": "long-field", "format": fmt, "kind": "roundtrip"},
+                                     "%s record with a str field of %d x %r: load(save(r)) -> %r" % (fmt, ln, ch, shown),
+                                     {"engine": "seqmc", "part": "long-field", "format": fmt, "length": ln, "char": ch,
+                                      "snippet": "\n".join(cls_source(fmt, ["int", "str"]) + [
+                                          "r = R(%d, %r * %d)" % (ln, ch, ln), "print(R.load(r.save()) == r)"])})
     report.part("derived-record-classes", states=n, transitions=n, evaluations=n, traces_validated_against_impl=n,
                 exhaustive=True, mismatches=bad,
-                what="parent/child record classes used in 4 orders x 3 field layouts x 3 formats, every value combination")
+                what="parent/child record classes used in 4 orders x 3 field layouts x 3 formats, every value combination; "
+                     "classes with field defaults / __slots__ / a used cached_property x 3 formats x 36 value tuples; "
+                     "str fields of 65536..400000 characters x 3 formats")
 
 
 # ------------------------------------------------------------------------------------------------
